@@ -112,3 +112,9 @@ C("C03",
   "Trusted: Proof's PartialEq for 'same decoded content'; hash bindings (accidental acceptance needs a collision). Panics are counted and attributed to C06.",
   "mutation-based negative oracle over accepted proofs (raw, structured, semantic, position-aware)",
   "DESIGN.md §5 C03")
+
+C("C06",
+  "Mutants of accepted proofs (every single-bit flip and byte substitution, every scalar/length field at boundary values, components grown/shrunk/emptied with lengths fixed up, FRI layer and query surgery, Merkle node-vector edits, truncation at every offset, trailing garbage, valid prefix + random bytes, structurally valid proofs with inconsistent components built through the public fields) are parsed with Proof::from_bytes and, when they parse, verified against right and perturbed public inputs under all three acceptance policies. Worker processes announce each case before running it, so aborts are attributed to their input; a panic hook records site + message signatures; a counting global allocator bounds the largest single request (max(16 MiB, 64 x input)) and the peak; builds: release with overflow checks and the repository's plain release semantics. ~3e5 inputs per quick run. Six panic sites that need an API change (infallible Air::new fed with untrusted trace info/options) are recorded as known findings by exact signature.",
+  "Trusted: the panic hook / allocator / process-isolation monitors of the harness. The AIR of the harness family is written defensively, so that remaining panics are in library code.",
+  "fault-attributing fuzz-style workload under panic, overflow, allocation and process-death monitors",
+  "DESIGN.md §5 C06")
